@@ -11,6 +11,7 @@
   `Spec l s` : (∃ r ∈ includes l, r.search s) ∧ ¬ ∃ r ∈ excludes l, r.search s.
 -/
 import FwdVerif.Lemmas.C17Main
+import FwdVerif.Lemmas.C17Subject
 
 namespace FwdVerif
 namespace C17
@@ -186,6 +187,256 @@ theorem c17_joined_flag_leak_witness :
 theorem c17_joined_order_witness :
     joinedSearch (leakList.map (·.src)) [66, 65, 82] ≠ joinedSearch (leakList.reverse.map (·.src)) [66, 65, 82] := by
   decide
+
+/-! ### Which string the lists are asked about (`http_proxy.go`: denyDomains, directDomains, MITMFilter)
+
+Model: `FwdVerif/Model/C17Subject.lean`.  `Target` = a request authority taken apart (host, in
+brackets or not, optional port); `WF t` = RFC 3986 byte classes (reg-name / dotted quad without
+`:` `[` `]`; `[` IPv6 address, optional `%zone` `]`; port = digits, possibly none); `subject t` =
+`req.URL.Hostname()` of `t.authority`, the string all three call sites hand to their list;
+`outcome` = what becomes of a request as far as the three lists decide it.  `splitFallback` is the
+extraction the code does NOT use (`net.SplitHostPort`, raw authority on error). -/
+
+/-- the lists are asked about the HOST: for every well-formed target the subject is the host as
+    written — without port, without brackets, letter case untouched -/
+theorem c17_subject_is_host {t : Target} (wf : WF t) : subject t = t.host := by
+  obtain ⟨host, br, port⟩ := t
+  simp only [WF, Target.wf, Bool.and_eq_true] at wf
+  obtain ⟨wh, wp⟩ := wf
+  cases br with
+  | false =>
+    obtain ⟨_, h1, h2, _⟩ := regName_facts (by simpa using wh)
+    cases port with
+    | none => simpa [subject, subjectOf, Target.authority] using C07.urlHostname_plain h1 h2
+    | some p => simpa [subject, subjectOf, Target.authority] using C07.urlHostname_host_port h2 wp
+  | true =>
+    cases port with
+    | none => simpa [subject, subjectOf, Target.authority] using urlHostname_bracketed_noport host
+    | some p =>
+      have := C07.urlHostname_bracketed host wp
+      simpa [subject, subjectOf, Target.authority] using this
+
+/-- the subject never holds a bracket, and for a name or a dotted quad no colon either: nothing
+    of the port or of the literal's delimiters reaches the rules -/
+theorem c17_subject_no_port_no_brackets {t : Target} (wf : WF t) :
+    (91 : UInt8) ∉ subject t ∧ (93 : UInt8) ∉ subject t ∧
+      (t.bracketed = false → (58 : UInt8) ∉ subject t) := by
+  rw [c17_subject_is_host wf]
+  obtain ⟨host, br, port⟩ := t
+  simp only [WF, Target.wf, Bool.and_eq_true] at wf
+  cases br with
+  | false =>
+    obtain ⟨_, h1, h2, h3⟩ := regName_facts (by simpa using wf.1)
+    exact ⟨h2, h3, fun _ => h1⟩
+  | true =>
+    obtain ⟨_, h2, h3⟩ := v6Literal_facts (by simpa using wf.1)
+    exact ⟨h2, h3, fun h => by simp at h⟩
+
+/-- the subject does not depend on the port, nor on whether a port is written at all (default
+    port, explicit port, empty port `host:`) -/
+theorem c17_subject_port_independent {t : Target} (wf : WF t) (p' : Option Bytes)
+    (hp' : ∀ p, p' = some p → p.all Ascii.isDigit = true) :
+    subject { t with port := p' } = subject t := by
+  have wf' : WF { t with port := p' } := by
+    simp only [WF, Target.wf, Bool.and_eq_true] at wf ⊢
+    refine ⟨wf.1, ?_⟩
+    cases p' with
+    | none => rfl
+    | some p => exact hp' p rfl
+  rw [c17_subject_is_host wf', c17_subject_is_host wf]
+
+/-- all three call sites ask about the same string, the host of the target -/
+theorem c17_site_subject (s : Site) {t : Target} (wf : WF t) : s.subject t.authority = t.host :=
+  c17_subject_is_host wf
+
+/-- the composed verdict: a list's answer at a call site is the matcher applied to the subject -/
+theorem c17_list_verdict (s : Site) (m : Matcher) (t : Target) :
+    siteVerdict s m t.authority = m.matches (subject t) ∧ listVerdict m t = m.matches (subject t) :=
+  ⟨rfl, rfl⟩
+
+/-- the property at the call sites: for every valid list and every well-formed target, the list
+    says yes at the deny, direct and mitm call sites iff some include rule matches the HOST on its own and
+    no exclude rule does — whatever the port, the brackets of a literal or the spelling of the
+    authority -/
+theorem c17_site_union {l : List Rule} {m : Matcher} (hv : Valid l) (h : fromList l = .ok m)
+    {t : Target} (wf : WF t) (s : Site) :
+    siteVerdict s m t.authority = true ↔
+      (∃ r ∈ includes l, r.search t.host = true) ∧ ¬ ∃ r ∈ excludes l, r.search t.host = true := by
+  have e : siteVerdict s m t.authority = m.matches t.host := by
+    simp only [siteVerdict, c17_site_subject s wf]
+  rw [e]
+  exact c17_union hv h t.host
+
+/-- a request is answered 403 by deny-domains iff the list's rules, each on its own, say so of
+    the host (plain request or CONNECT alike) -/
+theorem c17_denied_iff {l : List Rule} {m : Matcher} (hv : Valid l) (h : fromList l = .ok m)
+    (L : Lists) (hL : L.deny = some m) {t : Target} (wf : WF t) (connect : Bool) :
+    outcome L connect t.authority = .denied ↔ Spec l t.host := by
+  have hs := c17_site_subject .deny wf
+  have hu := c17_union hv h t.host
+  unfold outcome
+  simp only [hs, hL, optMatch_some]
+  cases hm : m.matches t.host with
+  | true => simpa [Spec] using hu.mp hm
+  | false =>
+    have : ¬ Spec l t.host := fun sp => by simpa [hm] using hu.mpr sp
+    simp only [Bool.false_eq_true, if_false]
+    constructor
+    · intro ho
+      split at ho
+      · exact absurd ho (by decide)
+      · split at ho <;> exact absurd ho (by decide)
+    · intro sp; exact absurd sp this
+
+/-- a CONNECT that is not denied is intercepted iff the mitm-domains rules say so of the host -/
+theorem c17_intercepted_iff {l : List Rule} {m : Matcher} (hv : Valid l) (h : fromList l = .ok m)
+    (L : Lists) (hL : L.mitm = some m) {t : Target} (wf : WF t)
+    (hd : optMatch L.deny false t.host = false) :
+    outcome L true t.authority = .intercepted ↔ Spec l t.host := by
+  have hu := c17_union hv h t.host
+  unfold outcome
+  simp only [c17_site_subject _ wf, hd, hL, optMatch_some, Bool.true_and, Bool.false_eq_true, if_false]
+  cases hm : m.matches t.host with
+  | true => simpa [Spec] using hu.mp hm
+  | false =>
+    have : ¬ Spec l t.host := fun sp => by simpa [hm] using hu.mpr sp
+    simp only [Bool.false_eq_true, if_false]
+    constructor
+    · intro ho
+      split at ho <;> exact absurd ho (by decide)
+    · intro sp; exact absurd sp this
+
+/-- a request that is neither denied nor intercepted by-passes the upstream proxy iff the
+    direct-domains rules say so of the host -/
+theorem c17_direct_iff {l : List Rule} {m : Matcher} (hv : Valid l) (h : fromList l = .ok m)
+    (L : Lists) (hL : L.direct = some m) {t : Target} (wf : WF t) (connect : Bool)
+    (hd : optMatch L.deny false t.host = false)
+    (hi : connect = false ∨ optMatch L.mitm true t.host = false) :
+    outcome L connect t.authority = .direct ↔ Spec l t.host := by
+  have hu := c17_union hv h t.host
+  have hc : (connect && optMatch L.mitm true t.host) = false := by
+    rcases hi with e | e <;> simp [e]
+  unfold outcome
+  simp only [c17_site_subject _ wf, hd, hc, hL, optMatch_some, Bool.false_eq_true, if_false]
+  cases hm : m.matches t.host with
+  | true => simpa [Spec] using hu.mp hm
+  | false =>
+    have : ¬ Spec l t.host := fun sp => by simpa [hm] using hu.mpr sp
+    simp only [Bool.false_eq_true, if_false]
+    exact ⟨fun ho => absurd ho (by decide), fun sp => absurd sp this⟩
+
+/-- what the lists make of a request is a function of the host alone: two well-formed spellings of
+    the same host (other port, no port, empty port) have the same outcome for any three lists -/
+theorem c17_outcome_same_host (L : Lists) (connect : Bool) {t t' : Target} (wf : WF t)
+    (wf' : WF t') (hh : t'.host = t.host) :
+    outcome L connect t'.authority = outcome L connect t.authority := by
+  unfold outcome
+  simp only [c17_site_subject _ wf, c17_site_subject _ wf', hh]
+
+/-! #### Why the extraction must be `URL.Hostname()` and not `net.SplitHostPort` with a fall-back -/
+
+/-- the alternative extraction agrees with the code's on every well-formed target that is a name, a
+    dotted quad, or carries a port … -/
+theorem c17_fallback_agrees {t : Target} (wf : WF t) (hs : t.bracketed = false ∨ t.port ≠ none) :
+    splitFallback t.authority = subject t := by
+  rw [c17_subject_is_host wf]
+  obtain ⟨host, br, port⟩ := t
+  simp only [WF, Target.wf, Bool.and_eq_true] at wf
+  obtain ⟨wh, wp⟩ := wf
+  cases br with
+  | false =>
+    obtain ⟨_, pl⟩ := regName_facts (by simpa using wh)
+    cases port with
+    | none => simp [splitFallback, Target.authority, C07.splitHostPort_no_colon pl.1]
+    | some p =>
+      simp [splitFallback, Target.authority, C07.splitHostPort_host_port pl (digits_plain wp)]
+  | true =>
+    obtain ⟨_, h2, h3⟩ := v6Literal_facts (by simpa using wh)
+    cases port with
+    | none => simp at hs
+    | some p =>
+      have := C07.splitHostPort_bracketed h2 h3 (digits_plain wp)
+      simp [splitFallback, Target.authority, this]
+
+/-- … and differs exactly on an IPv6 literal without port: it keeps the brackets -/
+theorem c17_fallback_keeps_brackets {t : Target} (wf : WF t) (hb : t.bracketed = true)
+    (hp : t.port = none) :
+    splitFallback t.authority = 91 :: (t.host ++ [93]) ∧ splitFallback t.authority ≠ subject t := by
+  rw [c17_subject_is_host wf]
+  obtain ⟨host, br, port⟩ := t
+  simp only at hb hp
+  subst hb hp
+  simp only [WF, Target.wf, Bool.and_eq_true] at wf
+  obtain ⟨_, _, h3⟩ := v6Literal_facts (by simpa using wf.1)
+  have e : splitFallback (Target.authority ⟨host, true, none⟩) = 91 :: (host ++ [93]) := by
+    simp [splitFallback, Target.authority, splitHostPort_bracketed_noport h3]
+  refine ⟨e, ?_⟩
+  rw [e]
+  intro c
+  have := congrArg List.length c
+  simp at this
+  omega
+
+/-- `GET http://[2001:db8::1]/` under the list `^2001:db8:` -/
+def v6NoPort : Target := ⟨[50, 48, 48, 49, 58, 100, 98, 56, 58, 58, 49], true, none⟩
+/-- `GET http://[2001:db8::1]:80/` -/
+def v6Port80 : Target := ⟨[50, 48, 48, 49, 58, 100, 98, 56, 58, 58, 49], true, some [56, 48]⟩
+/-- the list `^2001:db8:` -/
+def v6PrefixList : List Rule := [⟨[94, 50, 48, 48, 49, 58, 100, 98, 56, 58], false⟩]
+/-- the list `.*`, `-^2001:db8::1$` -/
+def v6ExceptList : List Rule :=
+  [⟨[46, 42], false⟩, ⟨[94, 50, 48, 48, 49, 58, 100, 98, 56, 58, 58, 49, 36], true⟩]
+
+/-- the kernel-checked witness: under the anchored rule `^2001:db8:` the host `2001:db8::1`
+    matches on the default port and on port 80 alike when the subject is `URL.Hostname()`; with the
+    fall-back extraction the same host is matched with `:80` and NOT matched without a port
+    (the rules see `[2001:db8::1]`); under `.*`, `-^2001:db8::1$` the exemption is lost -/
+theorem c17_fallback_verdict_witness :
+    WF v6NoPort ∧ WF v6Port80 ∧ Valid v6PrefixList ∧ Valid v6ExceptList ∧
+    matchesOf v6PrefixList (subject v6NoPort) = some true ∧
+    matchesOf v6PrefixList (subject v6Port80) = some true ∧
+    matchesOf v6PrefixList (splitFallback v6Port80.authority) = some true ∧
+    matchesOf v6PrefixList (splitFallback v6NoPort.authority) = some false ∧
+    matchesOf v6ExceptList (subject v6NoPort) = some false ∧
+    matchesOf v6ExceptList (splitFallback v6NoPort.authority) = some true := by
+  decide
+
+-- non-vacuity of the subject theorems: well-formed targets of every shape
+-- `Example.COM`, `www.example.com.:8080`, `192.0.2.7:`, `[fe80::1%eth0]:443`, `[::ffff:192.0.2.1]`
+example : WF ⟨[69, 120, 97, 109, 112, 108, 101, 46, 67, 79, 77], false, none⟩ ∧
+    WF ⟨[119, 119, 119, 46, 101, 120, 97, 109, 112, 108, 101, 46, 99, 111, 109, 46], false, some [56, 48, 56, 48]⟩ ∧
+    WF ⟨[49, 57, 50, 46, 48, 46, 50, 46, 55], false, some []⟩ ∧
+    WF ⟨[102, 101, 56, 48, 58, 58, 49, 37, 101, 116, 104, 48], true, some [52, 52, 51]⟩ ∧
+    WF ⟨[58, 58, 102, 102, 102, 102, 58, 49, 57, 50, 46, 48, 46, 50, 46, 49], true, none⟩ := by decide
+-- not well-formed: a bracket inside the host, an IPv6 address outside brackets, a non-numeric port
+example : ¬ WF ⟨[97, 91], false, none⟩ ∧ ¬ WF ⟨[50, 48, 48, 49, 58, 58, 49], false, none⟩ ∧
+    ¬ WF ⟨[97], false, some [120]⟩ ∧ ¬ WF ⟨[97, 93, 58], true, none⟩ := by decide
+-- the subject keeps the case and the trailing dot: `Example.COM.:443` ↦ `Example.COM.`
+example : subject ⟨[69, 120, 97, 109, 112, 108, 101, 46, 67, 79, 77, 46], false, some [52, 52, 51]⟩ =
+    [69, 120, 97, 109, 112, 108, 101, 46, 67, 79, 77, 46] := by decide
+-- a literal whose last group looks like a port: `[2001:db8::2:80]` ↦ `2001:db8::2:80`
+example : subject ⟨[50, 48, 48, 49, 58, 100, 98, 56, 58, 58, 50, 58, 56, 48], true, none⟩ =
+    [50, 48, 48, 49, 58, 100, 98, 56, 58, 58, 50, 58, 56, 48] := by decide
+-- outside WF the model still says what the code does: `2001:db8::1` without brackets ↦ `2001:db8:`
+example : subjectOf [50, 48, 48, 49, 58, 100, 98, 56, 58, 58, 49] = [50, 48, 48, 49, 58, 100, 98, 56, 58] := by decide
+-- c17_denied_iff / c17_intercepted_iff / c17_direct_iff: a configuration whose hypotheses hold
+example : ∃ m, fromList v6PrefixList = .ok m ∧
+    outcome { deny := some m } false v6NoPort.authority = .denied ∧
+    outcome { mitm := some m } true v6Port80.authority = .intercepted ∧
+    outcome { direct := some m } false v6NoPort.authority = .direct ∧
+    outcome { direct := some m } false [101, 120, 97, 109, 112, 108, 101, 46, 99, 111, 109] = .upstream := by
+  cases h : fromList v6PrefixList with
+  | ok m =>
+    have h1 : matchesOf v6PrefixList v6NoPort.host = some true := by decide
+    have h2 : matchesOf v6PrefixList [101, 120, 97, 109, 112, 108, 101, 46, 99, 111, 109] = some false := by decide
+    simp only [matchesOf, h, Option.some.injEq] at h1 h2
+    have s1 : subjectOf v6NoPort.authority = v6NoPort.host := c17_subject_is_host (by decide)
+    have s2 : subjectOf v6Port80.authority = v6NoPort.host := c17_subject_is_host (t := v6Port80) (by decide)
+    have s3 : subjectOf [101, 120, 97, 109, 112, 108, 101, 46, 99, 111, 109] = [101, 120, 97, 109, 112, 108, 101, 46, 99, 111, 109] := by decide
+    exact ⟨m, rfl, by simp [outcome, optMatch, Site.subject, s1, h1], by simp [outcome, optMatch, Site.subject, s2, h1],
+      by simp [outcome, optMatch, Site.subject, s1, h1], by simp [outcome, optMatch, Site.subject, s3, h2]⟩
+  | noInclude => exact absurd ((c17_no_include_error _).mp h) (by decide)
+  | panic e => exact absurd h (c17_no_panic (by decide) e)
 
 end C17
 end FwdVerif
